@@ -55,12 +55,26 @@ def mirrorUpperD (A : DMat D D K) : DMat D D K := DMat.ofFn (Mat.upperView A.get
 def npeProblemD (W : Mat N N K) (F : Mat N D K) : DMat D D K × DMat D D K :=
   (mirrorUpperD (weightSumD W F), mirrorUpperD (sampleSumD F (fun _ => 1)))
 
-/-- `construct_lltsa_eigenproblem`: `rhs` additionally gets `rankUpdate(sum, -1/N)` (centring); `lhs` does not
-    (fix F-LLTSA-CENTRE removed the spurious `lhs.rankUpdate(sum, -1/N)`) -/
+/-- `w_ones = W * Ones`: row sums of the sparse matrix -/
+def rowSums (W : Mat N N K) : Vec N K := fun r => sumFin N fun c => W r c
+
+/-- `weighted_sum += w_ones(iter) * x_iter` -/
+def weightedFeatureSum (W : Mat N N K) (F : Mat N D K) : Vec D K :=
+  fun j => sumFin N fun r => rowSums W r * F r j
+
+/-- `construct_lltsa_eigenproblem`: `rhs` gets `rankUpdate(sum, -1/N)` (centring); `lhs` gets, after the sparse loop,
+    `rankUpdate(weighted_sum, sum, -2/N)` and `rankUpdate(sum, 2 * w_ones.sum() / (N*N))`, i.e. the alignment matrix
+    acts on the CENTRED features (fix F-LLTSA-SHIFT; before it `lhs` was `2 X W Xᵀ` of the uncentred features, and
+    before F-LLTSA-CENTRE it carried a spurious `- s sᵀ/N`); both matrices are mirrored before returning -/
 def lltsaProblemD (W : Mat N N K) (F : Mat N D K) : DMat D D K × DMat D D K :=
   let s := DVec.ofFn (featureSum F)
   let c : K := (-1) / (N : K)
-  (mirrorUpperD (weightSumD W F), mirrorUpperD (rankUpdate1D (sampleSumD F (fun _ => 1)) s.get c))
+  let ws := DVec.ofFn (rowSums W)
+  let u := DVec.ofFn fun j => sumFin N fun r => ws.get r * F r j
+  let wsum : K := sumFin N ws.get
+  let lhs1 := rankUpdate2D (weightSumD W F) u.get s.get ((-((2 : Nat) : K)) / (N : K))
+  let lhs2 := rankUpdate1D lhs1 s.get (((2 : Nat) : K) * wsum / ((N : K) * (N : K)))
+  (mirrorUpperD lhs2, mirrorUpperD (rankUpdate1D (sampleSumD F (fun _ => 1)) s.get c))
 
 /-- `construct_locality_preserving_eigenproblem` (`L` sparse Laplacian, `Dg` the degree diagonal) -/
 def lppProblemD (L : Mat N N K) (Dg : Vec N K) (F : Mat N D K) : DMat D D K × DMat D D K :=
